@@ -425,7 +425,8 @@ class GenericContextRegistry(
             nodes = find_connected_nodes(self._active_ctx.graph, src_dim)
             if nodes:
                 for node in nodes:
-                    ret |= self._cache.dimensional_equivalents[node]
+                    # a dimension the contexts link to may have no unit of its own
+                    ret |= self._cache.dimensional_equivalents.get(node, frozenset())
 
         return ret
 
